@@ -891,6 +891,7 @@ def run_c11(ctx):
                                         "started in the same state and phase %r / %s"
                                         % (label, oi, oa, [show(e) for e in ea], ob, [show(e) for e in eb]),
                                         site=kind)
+                    # (storage made by <builtin>array and not yet filled is NaN in both: seams/memory.py)
                     pa, pb = A.persistent(), B.persistent()
                     for v in sorted(set(pa) | set(pb)):
                         if v not in pa or v not in pb or not same_value(pa[v], pb[v]):
